@@ -14,9 +14,9 @@ import json
 META = dict(
     id="C58",
     specs=["ClientSvc.tla", "ClientSvcMC.tla", "ClientSvcTrace.tla", "ClientSvcSim.tla", "ClientSvcGroup.tla", "ClientSvcImpl.tla", "ClientSvcImplMC.tla", "ClientSvcImplSim.tla"],
-    technique="TLA+ spec of the service the property describes (TLC exhaustive over 36 environment configurations, re-entrant calls included) + TLC trace validation of real ClientService executions: breadth-first exhaustive short histories with state hashing over the real service, seeded random long histories, and TLC-generated behaviours replayed on the real service",
-    level_text="TLC checks on the specification, for every history up to the stated depth, that there is at most one open connection or attempt, that a retry is due exactly at failure time + policy(consecutive failures), that whenConnected Deferreds are resolved by the next connection / their failure limit / the stop, that stopService Deferreds fire exactly when nothing is open any more, and that every call and stimulus (re-entrant ones included) is accepted; every recorded execution of the real ClientService is validated by TLC as a behaviour of that specification with every logged field matched.",
-    level_note="Trusted: TLC, the adapter's logging (callback arguments, exception classes, calls reaching the fake endpoint/transport/hook/policy). Failure classes delivered to Deferreds are logged but not constrained. Liveness is checked only as 'fires in the event that makes it due'. Histories beyond the enumerated depth are sampled. An execution is checked up to its first rejected event only.",
+    technique="TLA+ spec of the service the property describes (TLC exhaustive over 36 environment configurations, re-entrant calls included) + TLA+ model of ClientService as coded (automat state table, automat's dispatch semantics for re-entrant inputs, the Deferred chain of attemptConnection) checked by TLC against it: accepted under five environment restrictions, one counterexample per dropped restriction, each replayed on the real service + TLC trace validation of real ClientService executions: breadth-first exhaustive short histories with state hashing over the real service, seeded random long histories, and TLC-generated behaviours of both layers replayed on the real service",
+    level_text="TLC checks on the specification, for every history up to the stated depth, that there is at most one open connection or attempt, that a retry is due exactly at failure time + policy(consecutive failures), that whenConnected Deferreds are resolved by the next connection / their failure limit / the stop, that stopService Deferreds fire exactly when nothing is open any more, and that every call and stimulus (re-entrant ones included) is accepted; TLC checks the model of the coded state machine against that specification (finding the defect classes at design level); every recorded execution of the real ClientService is validated by TLC as a behaviour of the specification with every logged field matched, and the coded-machine model is shown to predict the real service's observable events exactly on generated behaviours (impl_drift).",
+    level_note="Trusted: TLC, the adapter's logging (callback arguments, exception classes, calls reaching the fake endpoint/transport/hook/policy). Failure classes delivered to Deferreds are logged but not constrained. Liveness is checked only as 'fires in the event that makes it due'. Histories beyond the enumerated depth are sampled. An execution is checked up to its first rejected event only. The breadth-first enumeration is exhaustive modulo hashing of the real service's state.",
     design_ref="2.10 C58",
     rule="history = sequence of startService/stopService/whenConnected calls (with scripted re-entrant callbacks), endpoint/hook/transport stimuli and clock advances on one service; distinct = hash of (cfg, events); non-trivial = at least two different event kinds",
 )
@@ -315,7 +315,7 @@ def run(ctx):
     ctx.extra["exhaustive_states_of_real_service"] = nstates
 
     # 2. seeded random long histories
-    nrand = ctx.pick(1500, 40000)
+    nrand = ctx.pick(900, 40000)
     rnd = []
     for i in range(nrand):
         profile = ("full", "plain", "simple")[i % 3]
@@ -324,7 +324,7 @@ def run(ctx):
 
     # 3. spec -> code: behaviours generated by TLC from the specification are stepped through the real service;
     #    the real observables must be the predicted ones (decided again by TLC in validate()).
-    behs = ctx.simulate("ClientSvcSim", "ClientSvcSim.cfg", num=ctx.pick(150, 3000), depth=14)
+    behs = ctx.simulate("ClientSvcSim", "ClientSvcSim.cfg", num=ctx.pick(50, 2500), depth=14)
     sim = []
     for b in behs:
         ops = [[int(x) if isinstance(x, str) and x.isdigit() else x for x in h] for h in b["hist"]]
@@ -347,7 +347,7 @@ def run(ctx):
             drift += 1
         ctx.log("design counterexample, restriction %s dropped: ops %s -> %s" % (x, json.dumps(design_cex[x]["ops"]), rep[x]))
     ctx.extra["design_counterexamples"] = {x: dict(ops=design_cex[x]["ops"], real_code=rep[x]) for x in design_cex}
-    ibehs = ctx.simulate("ClientSvcImplSim", "ClientSvcImplSim.cfg", num=ctx.pick(60, 1500), depth=13)
+    ibehs = ctx.simulate("ClientSvcImplSim", "ClientSvcImplSim.cfg", num=ctx.pick(20, 600), depth=13)
     isim = []
     for b in ibehs:
         t = run_history(b["cfg"], b["ops"])
